@@ -23,6 +23,8 @@ def common_type(a, b):
     sa, sb = F.ct_signed(a), F.ct_signed(b)
     wa, wb = F.CTYPES[a][1], F.CTYPES[b][1]
     if sa == sb:
+        if wa == wb:
+            return a if "long long" in a else b      # same width: the higher conversion rank wins
         return a if wa >= wb else b
     u, s = (a, b) if not sa else (b, a)
     wu, ws = F.CTYPES[u][1], F.CTYPES[s][1]
@@ -52,15 +54,19 @@ class C05(F.Check):
     ]
 
     def bounds(self):
-        return {"stored values": "all values / bit patterns of the source rep", "rep pairs": 121,
+        return {"stored values": "all values / bit patterns of the source rep", "rep pairs": "121 + 18 with long long / unsigned long long",
                 "factors per pair": "quick: 2-3 rotating; thorough: all of %d integral / %d floating" % (len(INT_FACTORS), len(FLT_FACTORS))}
 
     def kernels(self):
         ks = []
         self.inst = []
         pair_idx = 0
-        for s in F.ALL_REPS:
-            for t in F.ALL_REPS:
+        pairs = [(s, t) for s in F.ALL_REPS for t in F.ALL_REPS]
+        # long long / unsigned long long: distinct types from int64_t / uint64_t on LP64, same arithmetic (type-identity dispatch can differ)
+        for tw in F.TWIN_INT_REPS:
+            pairs += [(tw, t) for t in ("int32_t", "uint64_t", "int64_t", tw, "double")] + [(s, tw) for s in ("int64_t", "uint8_t", "uint64_t", "double")]
+        for s, t in pairs:
+            if True:
                 c = common_type(s, t)
                 pair_idx += 1
                 if F.ct_is_float(c):
